@@ -2,7 +2,7 @@
 
 Two parts (DESIGN.md, C18):
   (A) trace conformance to the proved-explicit model Model/RandProg.v for the mirrored operations
-      (random scorer, the two hold-out splits, DBAL triple sub-sampling): the requests the real
+      (random scorer, the two hold-out splits, DBAL triple sub-sampling, FixedSize / OptimalSize smoothers): the requests the real
       operation makes on its generator, and its output, equal what the model program produces when it
       is replayed on the recorded answers (wire cases, aspect "repeatable").
   (B) the dynamic check, which is what detects defects: every randomised operation is run TWICE with an
@@ -59,6 +59,9 @@ THEOREMS = {
     "C18_model_is_source_random_holdout": "the translation of the WHOLE function create_random_holdout equals: ValueError (5) if fraction outside [0,1], else random_holdout_prog followed by the two Screen(...) constructions on the vector of the held rows - for ANY screen type, size and meaning of the constructions, and all answers satisfying numpy's choice contract",
     "C18_model_is_source_balanced_holdout": "the same for the WHOLE function create_plate_balanced_holdout_set_among_masked_plates and balanced_holdout_prog, for every screen whose plates' row lists have screen.size entries in all, each a row number (true of every Screen: a row lies on exactly one plate)",
     "C18_model_is_source_dbal_subsample": "the translation of the statement run of dbal_fast_gauss_scoring_vectorized from `n_theta_combinations = comb(...)` to `unpacked_indices = rng.choice(...)` IS dbal_subsample_prog (Leibniz equality) for all n_thetas, max_combos",
+    "C18_model_is_source_fixed_size_smoother": "the translation of the WHOLE method FixedSizeSmoother._smooth_plates equals the hand-written size_smoother_prog (per plate: dropped / kept / one choice of plate_size of its rows, replaced by np.isin of the answer; then the OR of the kept vectors) followed by screen.subset(v).to_screen() - for ANY screen type, size / plates functions and meaning of that last call, all answers",
+    "C18_model_is_source_optimal_size_smoother": "the same for the WHOLE method OptimalSizeSmoother._smooth_plates, the size being ANY request-free (possibly raising) function of the list of plate sizes (its three numpy statements, one trusted statement run)",
+    "C18_source_fixed_size_smoother_trace": "the translated FixedSizeSmoother._smooth_plates requests exactly one choice per plate larger than plate_size, in plate order, pool = the plate's rows, k = plate_size",
     "C18_source_random_scorer_trace": "the trace theorem about the translated source: RandomScorer.score requests exactly one uniform per plate key, in key order, and pairs the keys with the answers in order",
     "C18_source_balanced_holdout_trace": "the trace theorem about the translated source: the plate-balanced hold-out requests exactly one choice per unobserved plate, in plate order, pool = the plate's rows, k = ceil(size*fraction)",
 }
@@ -76,8 +79,9 @@ EXPLANATION = (
     "of the program and the answers it consumes only; execution against any generator state machine is replay of its answers; a "
     "program drawing only through its own generator neither reads nor changes an unrelated global generator state, also across two "
     "runs with arbitrary global perturbation in between; the property fails for a program served from the global state (refuted "
-    "witness).  Tied to the code for four mirrored operations (RandomScorer.score, create_random_holdout, "
-    "create_plate_balanced_holdout_set_among_masked_plates, DBAL triple sub-sampling) by TRACE CONFORMANCE: recorded requests and "
+    "witness).  Tied to the code for six mirrored operations (RandomScorer.score, create_random_holdout, "
+    "create_plate_balanced_holdout_set_among_masked_plates, DBAL triple sub-sampling, FixedSizeSmoother / OptimalSizeSmoother."
+    "_smooth_plates) by TRACE CONFORMANCE: recorded requests and "
     "output of the real operation = extracted model replayed on the recorded answers; answers are checked against the numpy contract. "
     "NOT proved about the implementation: that it has no hidden state.  That part is a RUNTIME check on generated inputs: every "
     "operation listed in the property is run twice with identically seeded generators under differently seeded global generators, "
@@ -85,7 +89,8 @@ EXPLANATION = (
     "of numpy.random.<module function> or argument-less default_rng() is trapped with its batchie call site.  Not covered: "
     "models other than SparseDrugCombo / SparseDrugComboInteraction, the nextflow pipelines, multi-process runs.  "
     "COVERED BY PROOF since the source-translation links (theorems C18_model_is_source_*): RandomScorer.score, "
-    "create_random_holdout and create_plate_balanced_holdout_set_among_masked_plates (whole functions) and the triple "
+    "create_random_holdout, create_plate_balanced_holdout_set_among_masked_plates, FixedSizeSmoother._smooth_plates and "
+    "OptimalSizeSmoother._smooth_plates (whole functions) and the triple "
     "sub-sampling statements of dbal_fast_gauss_scoring_vectorized (the rest of that function may only mention the identifiers "
     "listed in the configuration's outside_names - a new name such as rng, .random or default_rng there is refused) are "
     "re-translated from the tree under test on every run by "
@@ -98,8 +103,8 @@ EXPLANATION = (
     "a function of the inputs and the answers of the given generator only' is a theorem about the translated source (it is "
     "a `prog`, so C18_explicit_stream / exec_is_replay / frame / two_runs_interleaved apply to it as they stand), not a "
     "runtime observation; trace conformance and the runtime traps still run for them and remain the only tie for every "
-    "other operation (plate generators, smoothers, DBAL scorer arithmetic, policy, select_next_plate, score_chunk, "
-    "sampling, CLIs).  The links trust: the translator and Lib/PyRt.v + the rprog vocabulary at the end of "
+    "other operation (plate generators, the other four smoothers, DBAL scorer arithmetic, policy, select_next_plate, "
+    "score_chunk, sampling, CLIs).  The links trust: the translator and Lib/PyRt.v + the rprog vocabulary at the end of "
     "Model/RandProg.v as the meaning of the Python constructs, and exactly these primitives - requests: rng.random() "
     "(RRandom, the double as its order key), rng.choice(a, n, replace=False) (RChoice a n false), rng.choice(n, size=k, "
     "replace=False) (RChoiceN n k false); request-free: plates.keys() (the key list), fraction < 0 / fraction > 1 (num < 0 / "
@@ -108,7 +113,12 @@ EXPLANATION = (
     "(row list, observed flag); size = number of rows), selection_vector[idx] = True (numpy index-array store: IndexError "
     "outside -n..n-1, negative indices wrap), the two Screen(...) constructions (ANY request-free function of the screen and "
     "the selection vector, possibly raising: universally quantified in the theorems), comb(n, 3, exact=True) (binom3), "
-    "min(a, b).")
+    "min(a, b); for the two smoothers a plate is its selection vector: p.size (count of true), p.selection_vector, "
+    "np.arange(s.size)[p.selection_vector] (positions of true), np.isin(np.arange(s.size), idx) (membership vector), "
+    "Plate(screen, v) (v), a | b (element-wise or of equal-length vectors), self.plate_size, screen.subset(v).to_screen() and "
+    "OptimalSizeSmoother's three size-picking numpy statements (ANY request-free functions, universally quantified), "
+    "logger.info ignored.  A request whose arguments numpy rejects (k < 0, k > len(pool) without replacement) raises in "
+    "Python where the model continues with an answer; no answer satisfies the contract valid_answer for such a request.")
 TRUSTED = [
     "unittest.mock patching of numpy.random attributes and the stack walk that attributes trapped calls to files under /repo/src/batchie",
     "RecordingGenerator (python subclass of numpy.random.Generator sharing the seeded bit generator) does not change the stream",
@@ -848,7 +858,9 @@ def _ans_wire(name, r):
 def conformance(d, r1):
     """wire case + canonical implementation value for the mirrored operations, from the FIRST observed run"""
     k = d["kind"]
-    if k not in ("random_scorer", "random_holdout", "balanced_holdout", "dbal_vectorized") or len(r1["gens"]) != 1:
+    if k not in ("random_scorer", "random_holdout", "balanced_holdout", "dbal_vectorized", "smoother") or len(r1["gens"]) != 1:
+        return None, None
+    if k == "smoother" and d.get("name") not in ("FixedSize", "OptimalSize"):
         return None, None
     raised = isinstance(r1["out"], list) and r1["out"][:1] == ["raised"]
     if raised and k != "dbal_vectorized":
@@ -864,6 +876,24 @@ def conformance(d, r1):
         out = [[int(pid), float_key(float.fromhex(v[1]))] for pid, v in r1["out"]]
         return [0, [int(p) for p in plates], answers], [out, reqs]
     n = sc.size if sc is not None else 0
+    if k == "smoother":
+        # FixedSizeSmoother / OptimalSizeSmoother._smooth_plates runs on the unobserved part of the screen (core.py wrapper);
+        # its plates cross as 0/1 selection vectors, the output as the vector of the rows that survive (rows are re-identified
+        # by their distinct observation values; the observed rows the wrapper adds back have other values)
+        sub = sc.subset_unobserved()
+        o = r1["out"][2] if r1["out"] is not None else []
+        if sub is None or len(o) <= 4:
+            return None, None
+        inner = sub.to_screen()
+        pl = inner.plates
+        if d["name"] == "FixedSize":
+            t = d["plate_size"]
+        else:      # the three numpy statements of OptimalSizeSmoother that pick the size (not part of the modelled skeleton)
+            ps = np.sort(np.array([p.size for p in pl]))
+            t = int(ps[np.argmax(ps * (len(ps) - np.arange(len(ps))))])
+        out_obs = set(float.fromhex(h) for h in o[4])
+        kept = [int(float(x) in out_obs) for x in inner.observations]
+        return [4, [[int(b) for b in p.selection_vector] for p in pl], int(inner.size), int(t), answers], [kept, reqs]
     if k in ("random_holdout", "balanced_holdout"):
         # rows are re-identified by their distinct observation values
         arr = mk_arrays(d["screen"])["observations"]
